@@ -561,3 +561,15 @@ pub mod verif {
         }
     }
 }
+
+/// Verification hooks (`--cfg rosu_pp_verif`): read / override the private `convert_type`.
+#[cfg(rosu_pp_verif)]
+impl HitObjectPatternGenerator<'_> {
+    pub const fn verif_convert_type(&self) -> u16 {
+        self.convert_type.verif_bits()
+    }
+
+    pub fn verif_set_convert_type(&mut self, bits: u16) {
+        self.convert_type = PatternType::verif_from_bits(bits);
+    }
+}
